@@ -303,7 +303,23 @@ def gen_deps(prop):
 AXIOM_ALLOW = set()  # the allow-list of axioms is empty: every theorem must be closed
 
 
-def prove(prop):
+def coqchk(prop):
+    """Independent re-check of Properties/<prop>.vo and everything it depends on with coqchk; returns
+    (ok, summary dict or error text)."""
+    rc, out = sh(["coqchk", "-silent", "-o"] + COQ_ARGS + ["BM.Properties.%s" % prop], cwd=COQ, timeout=1200)
+    if rc != 0:
+        return False, "coqchk failed: " + out[-600:]
+    summ = {}
+    for key, label in (("axioms", "Axioms"), ("type_in_type", "Constants/Inductives relying on type-in-type"),
+                       ("unsafe_fix", "Constants/Inductives relying on unsafe (co)fixpoints"),
+                       ("assumed_positive", "Inductives whose positivity is assumed")):
+        m = re.search(r"\* " + re.escape(label) + r":\s*(.*?)(?=\n\s*\n|\Z)", out, flags=re.S)
+        summ[key] = " ".join(m.group(1).split()) if m else "?"
+    ok = all(v == "<none>" for v in summ.values())
+    return ok, summ
+
+
+def prove(prop, tier="quick"):
     """Build Properties/<prop>.vo (and everything it depends on) against the current Gen/ model.
     Returns dict(ok, theorems, assumptions, axioms, error)."""
     vfile = os.path.join(COQ, "theories", "Properties", prop + ".v")
@@ -353,6 +369,12 @@ def prove(prop):
         res["error"] = "Print Assumptions: %d of %d theorems closed; axioms: %s" % (
             closed, len(res["theorems"]), res["axioms"])
         return res
+    if tier == "thorough":
+        ok, summ = coqchk(prop)
+        res["coqchk"] = summ
+        if not ok:
+            res["error"] = "coqchk: %s" % (summ,)
+            return res
     res["ok"] = True
     return res
 
